@@ -19,6 +19,13 @@
      Fft         np.fft.fft divided by sqrt(power scale)      (OFDM.demodulate)
      Unmap       OFDM._prepare_decoded_signal                 (OFDM.demodulate returns here)
      Equalize    OfdmOneTapEqualizer.equalize_data with the impulse response the channel reports
+     Construct / SetParameters   HISTORY of one live OFDM object: OFDM(c) followed by up to HistMax - 1 calls
+                 set_parameters(c), accepted (valid c) or rejected with ValueError (invalid c: the object
+                 must stay exactly as it was).  After every call the object is USED: a full chain
+                 (StartLive) runs with the parameters the object holds and must satisfy every law for the
+                 configuration the history DEMANDS (`want`).  Ghost state of the as-is object: `obj`
+                 (parameters actually stored) and `memo` (which used-counts have had their sub-carrier
+                 numbers computed, and in which branch).
      MapCase     (star) the index map alone, for fft sizes up to 64 and every even u
      ParamCase   (star) OFDM.set_parameters: which <<N, cp, u>> are accepted
 
@@ -48,7 +55,10 @@
    Deviation flags (record Dev): with all flags FALSE the laws below are invariants.
      FreqResponseTruncates  get_freq_response(N) drops taps at delay >= N (np.fft.fft crops) instead of
                             aliasing them: wrong in the corner cp = N = memory   (observed in the code)
-     DcNotSkipped, MapOffByOne, CpFromHead, ScaleNotInverted, SymbolsFloor, MemoryExceedsCp
+     DcNotSkipped, MapOffByOne, CpFromHead, ScaleNotInverted, SymbolsFloor, MemoryExceedsCp,
+     MemoNumbersByUsedOnly (sub-carrier numbers cached per object keyed by the used count only: stale when
+     the all-carriers branch and the centred branch meet the same count at different fft sizes),
+     RejectedSetHalfUpdates (set_parameters stores fft/cp before it validates the used count)
                             plausible regressions / a dropped hypothesis; each is refuted by TLC, which
                             shows that the laws are not vacuous.                                      *)
 EXTENDS Integers, Sequences, FiniteSets, TLC, Emit, Cyc2
@@ -61,19 +71,25 @@ CONSTANTS Configs,   \* set of <<N, cp, u>> for which pipeline cases are generat
           NDense,    \* number of pseudo-random dense data patterns per length
           LayMode,   \* "none" | "one" | "three" | "basis" | "all3" : tap layouts per configuration
           Block,     \* BOOLEAN: also block-static channels (taps of OFDM symbol s multiplied by i^s)
+          HistValid, \* set of valid <<N, cp, u>> a live object is constructed with / re-configured to
+          HistBad,   \* set of invalid <<N, cp, u>> passed to set_parameters (must be rejected, object unchanged)
+          HistMax,   \* number of calls in a history (constructor included)
           Seed,      \* seeds the in-spec LCG
           Dev        \* [flag |-> BOOLEAN]
 
 ASSUME CySelfTest(8)
 
 VARIABLES pc, cfg, ns, data, chan, sc, padded, grid, gridi, body, tx, txi, rxfull, rx, win, wini,
-          freq, dem, demi, eq
+          freq, dem, demi, eq,
+          hist, want, obj, memo          \* the live object: calls so far, demanded / stored parameters, numbers cache
+live == <<hist, want, obj, memo>>
 vars == <<pc, cfg, ns, data, chan, sc, padded, grid, gridi, body, tx, txi, rxfull, rx, win, wini,
-          freq, dem, demi, eq>>
+          freq, dem, demi, eq, hist, want, obj, memo>>
 
 GZ == <<0, 0>>
 Exact(N) == N \in {2, 4, 8, 16}
 NoChan == [taps |-> <<>>, block |-> FALSE]
+NoObj  == [N |-> 0, cp |-> 0, u |-> 0]
 NoCfg  == [N |-> 0, cp |-> 0, u |-> 0, L |-> 0, pat |-> <<"none", 0, 0>>]
 N0 == cfg.N
 CP == cfg.cp
@@ -102,6 +118,13 @@ ScNumberAsIs(N, u, j) ==
 \* FFT bin (0-based) of data position j
 UsedIdx(N, u)     == [j \in 1..u |-> ScNumber(N, u, j) % N]
 UsedIdxAsIs(N, u) == [j \in 1..u |-> ScNumberAsIs(N, u, j) % N]
+\* The map the live object uses: with the numbers cache keyed by the used count alone, an entry made in
+\* the other branch (all carriers / centred band) is stale.  memo is a set of <<u, computed with u = N>>.
+NumbersBranch(u, all, j) == IF all THEN j - 1 - (u \div 2)
+                            ELSE IF j <= u \div 2 THEN j - 1 - (u \div 2) ELSE j - (u \div 2)
+UsedIdxLive(N, u) == IF Dev.MemoNumbersByUsedOnly /\ \E e \in memo : e[1] = u
+                       THEN LET e == CHOOSE e \in memo : e[1] = u IN [j \in 1..u |-> NumbersBranch(u, e[2], j) % N]
+                       ELSE UsedIdxAsIs(N, u)
 Signed(N, k) == IF 2 * k < N THEN k ELSE k - N
 \* data position (1..u) written to bin k (0-based), 0 if none; on a collision the last write wins
 InvIdx(idx, N) == [k1 \in 1..N |-> LET js == {j \in 1..Len(idx) : idx[j] = k1 - 1}
@@ -182,40 +205,47 @@ Init == /\ pc = "idle" /\ cfg = NoCfg /\ ns = 0 /\ data = <<>> /\ chan = NoChan
         /\ padded = <<>> /\ grid = <<>> /\ gridi = <<>> /\ body = <<>> /\ tx = <<>> /\ txi = <<>>
         /\ rxfull = <<>> /\ rx = <<>> /\ win = <<>> /\ wini = <<>> /\ freq = <<>> /\ dem = <<>>
         /\ demi = <<>> /\ eq = <<>>
+        /\ hist = <<>> /\ want = NoObj /\ obj = NoObj /\ memo = {}
 
 Choose(c, L, pat) ==
     /\ pc = "idle" /\ pc' = "input"
     /\ cfg' = [N |-> c[1], cp |-> c[2], u |-> c[3], L |-> L, pat |-> pat]
     /\ data' = DataOf(pat, L, KeyOf(c, L))
+    /\ UNCHANGED live
     /\ UNCHANGED <<ns, chan, sc, padded, grid, gridi, body, tx, txi, rxfull, rx, win, wini, freq, dem, demi, eq>>
 
 MapCase(N, u) ==
     /\ pc = "idle" /\ pc' = "mapcase"
     /\ cfg' = [NoCfg EXCEPT !.N = N, !.u = u]
+    /\ UNCHANGED live
     /\ UNCHANGED <<ns, data, chan, sc, padded, grid, gridi, body, tx, txi, rxfull, rx, win, wini, freq, dem, demi, eq>>
 
 ParamCase(N, cp, u) ==
     /\ pc = "idle" /\ pc' = "param"
     /\ cfg' = [NoCfg EXCEPT !.N = N, !.cp = cp, !.u = u]
+    /\ UNCHANGED live
     /\ UNCHANGED <<ns, data, chan, sc, padded, grid, gridi, body, tx, txi, rxfull, rx, win, wini, freq, dem, demi, eq>>
 
 Pad ==
     /\ pc = "input" /\ pc' = "pad"
     /\ ns' = IF Dev.SymbolsFloor THEN (IF cfg.L < U THEN 1 ELSE cfg.L \div U) ELSE NSym(cfg.L, U)
     /\ padded' = [j \in 1..(ns' * U) |-> IF j <= cfg.L THEN data[j] ELSE GZ]
+    /\ UNCHANGED live
     /\ UNCHANGED <<cfg, data, chan, sc, grid, gridi, body, tx, txi, rxfull, rx, win, wini, freq, dem, demi, eq>>
 
 Map ==
     /\ pc = "pad" /\ pc' = "map"
-    /\ LET inv == InvIdx(UsedIdxAsIs(N0, U), N0)
+    /\ LET inv == InvIdx(UsedIdxLive(N0, U), N0)
        IN  /\ gridi' = [s \in 1..ns |-> [k1 \in 1..N0 |-> IF inv[k1] = 0 THEN 0 ELSE (s - 1) * U + inv[k1]]]
            /\ grid'  = [s \in 1..ns |-> [k1 \in 1..N0 |-> IF inv[k1] = 0 THEN GZ ELSE padded[(s - 1) * U + inv[k1]]]]
+    /\ UNCHANGED live
     /\ UNCHANGED <<cfg, ns, data, chan, sc, padded, body, tx, txi, rxfull, rx, win, wini, freq, dem, demi, eq>>
 
 Ifft ==
     /\ pc = "map" /\ pc' = "ifft"
     /\ body' = IF Exact(N0) THEN [s \in 1..ns |-> CyIdftNG(grid[s], MM)] ELSE <<>>
     /\ sc' = [e |-> 1, div |-> N0]
+    /\ UNCHANGED live
     /\ UNCHANGED <<cfg, ns, data, chan, padded, grid, gridi, tx, txi, rxfull, rx, win, wini, freq, dem, demi, eq>>
 
 \* body sample carried at offset o (0-based) of a block of N + cp emitted samples
@@ -225,11 +255,13 @@ AddCP ==
     /\ txi' = [p1 \in 1..(ns * BlkLen) |-> <<(p1 - 1) \div BlkLen, TLabel((p1 - 1) % BlkLen)>>]
     /\ tx'  = IF Exact(N0) THEN [p1 \in 1..(ns * BlkLen) |-> body[((p1 - 1) \div BlkLen) + 1][TLabel((p1 - 1) % BlkLen) + 1]]
               ELSE <<>>
+    /\ UNCHANGED live
     /\ UNCHANGED <<cfg, ns, data, chan, sc, padded, grid, gridi, body, rxfull, rx, win, wini, freq, dem, demi, eq>>
 
 Loop ==
     /\ pc = "cp" /\ pc' = "rx"
     /\ chan' = NoChan /\ rx' = tx
+    /\ UNCHANGED live
     /\ UNCHANGED <<cfg, ns, data, sc, padded, grid, gridi, body, tx, txi, rxfull, win, wini, freq, dem, demi, eq>>
 
 \* multiplication of a Gaussian integer by i^k
@@ -249,31 +281,36 @@ Channel(ch) ==
                                     IN  IF src < 0 \/ src >= n THEN CyZero(MM)
                                         ELSE CyMulG(TapAt(ch, q, src), tx[src + 1])], MM)]
                    ELSE <<>>
+    /\ UNCHANGED live
     /\ UNCHANGED <<cfg, ns, data, sc, padded, grid, gridi, body, tx, txi, rx, win, wini, freq, dem, demi, eq>>
 
 Crop ==
     /\ pc = "chan" /\ pc' = "rx"
     /\ rx' = IF Exact(N0) THEN SubSeq(rxfull, 1, Len(tx)) ELSE <<>>
+    /\ UNCHANGED live
     /\ UNCHANGED <<cfg, ns, data, chan, sc, padded, grid, gridi, body, tx, txi, rxfull, win, wini, freq, dem, demi, eq>>
 
 RemoveCP ==
     /\ pc = "rx" /\ pc' = "nocp"
     /\ wini' = [s \in 1..ns |-> [w1 \in 1..N0 |-> txi[(s - 1) * BlkLen + CP + w1]]]
     /\ win'  = IF Exact(N0) THEN [s \in 1..ns |-> [w1 \in 1..N0 |-> rx[(s - 1) * BlkLen + CP + w1]]] ELSE <<>>
+    /\ UNCHANGED live
     /\ UNCHANGED <<cfg, ns, data, chan, sc, padded, grid, gridi, body, tx, txi, rxfull, rx, freq, dem, demi, eq>>
 
 Fft ==
     /\ pc = "nocp" /\ pc' = "fft"
     /\ freq' = IF Exact(N0) THEN [s \in 1..ns |-> CyDft(win[s], MM)] ELSE <<>>
     /\ sc' = [e |-> IF Dev.ScaleNotInverted THEN sc.e + 1 ELSE sc.e - 1, div |-> sc.div]
+    /\ UNCHANGED live
     /\ UNCHANGED <<cfg, ns, data, chan, padded, grid, gridi, body, tx, txi, rxfull, rx, win, wini, dem, demi, eq>>
 
 Unmap ==
     /\ pc = "fft" /\ pc' = "dem"
-    /\ LET idx == UsedIdxAsIs(N0, U)
+    /\ LET idx == UsedIdxLive(N0, U)
        IN  /\ demi' = [j \in 1..(ns * U) |-> <<(j - 1) \div U, idx[((j - 1) % U) + 1]>>]
            /\ dem'  = IF Exact(N0) THEN [j \in 1..(ns * U) |-> freq[((j - 1) \div U) + 1][idx[((j - 1) % U) + 1] + 1]]
                       ELSE <<>>
+    /\ UNCHANGED live
     /\ UNCHANGED <<cfg, ns, data, chan, sc, padded, grid, gridi, body, tx, txi, rxfull, rx, win, wini, freq, eq>>
 
 \* the equalised value of element j is the exact fraction num/den (den = div * H_s[bin]); H_s is the
@@ -286,13 +323,38 @@ Equalize ==
                THEN LET H == IF Dev.FreqResponseTruncates THEN FreqRespTrunc(chan.taps, N0) ELSE FreqResp(chan.taps, N0)
                     IN  [j \in 1..Len(dem) |-> [num |-> dem[j], den |-> EqDen(H, j)]]
                ELSE <<>>
+    /\ UNCHANGED live
     /\ UNCHANGED <<cfg, ns, data, chan, sc, padded, grid, gridi, body, tx, txi, rxfull, rx, win, wini, freq, dem, demi>>
 
-Start    == pc = "idle" /\ \E c \in Configs : \E L \in Lengths(c[3]) : \E pat \in Patterns(c[3], L) : Choose(c, L, pat)
-MapStar  == pc = "idle" /\ \E N \in MapFfts : \E h \in 1..(N \div 2) : MapCase(N, 2 * h)
-ParamStar == pc = "idle" /\ \E N \in ParamFfts : \E cp \in -1..(N + 1) : \E u \in 0..(N + 2) : ParamCase(N, cp, u)
+\* ---- history of one live object (pc stays "idle"; the chains branch off every such state) ----
+AsRec(c) == [N |-> c[1], cp |-> c[2], u |-> c[3]]
+Pipeline == <<cfg, ns, data, chan, sc, padded, grid, gridi, body, tx, txi, rxfull, rx, win, wini, freq, dem, demi, eq>>
+\* the object has been used in its current configuration (a chain ran): its numbers are cached
+Used(o, m) == IF \E e \in m : e[1] = o.u THEN m ELSE m \cup {<<o.u, o.u = o.N>>}
+Construct(c) ==
+    /\ pc = "idle" /\ hist = <<>>
+    /\ hist' = <<c>> /\ want' = AsRec(c) /\ obj' = AsRec(c) /\ memo' = {}
+    /\ UNCHANGED pc /\ UNCHANGED Pipeline
+SetParameters(c) ==
+    /\ pc = "idle" /\ hist # <<>> /\ Len(hist) < HistMax
+    /\ hist' = Append(hist, c)
+    /\ memo' = Used(obj, memo)
+    /\ IF Valid(c[1], c[2], c[3])
+         THEN want' = AsRec(c) /\ obj' = AsRec(c)
+         ELSE /\ want' = want                                     \* raises ValueError: nothing may change
+              /\ obj' = IF Dev.RejectedSetHalfUpdates /\ c[2] \in 0..c[1]
+                          THEN [obj EXCEPT !.N = c[1], !.cp = c[2]] ELSE obj
+    /\ UNCHANGED pc /\ UNCHANGED Pipeline
+NewObject   == \E c \in HistValid : Construct(c)
+Reconfigure == \E c \in HistValid \cup HistBad : SetParameters(c)
+StartLive   == pc = "idle" /\ hist # <<>> /\ obj = want
+               /\ \E L \in Lengths(obj.u) : \E pat \in Patterns(obj.u, L) : Choose(<<obj.N, obj.cp, obj.u>>, L, pat)
+
+Start    == pc = "idle" /\ hist = <<>> /\ \E c \in Configs : \E L \in Lengths(c[3]) : \E pat \in Patterns(c[3], L) : Choose(c, L, pat)
+MapStar  == pc = "idle" /\ hist = <<>> /\ \E N \in MapFfts : \E h \in 1..(N \div 2) : MapCase(N, 2 * h)
+ParamStar == pc = "idle" /\ hist = <<>> /\ \E N \in ParamFfts : \E cp \in -1..(N + 1) : \E u \in 0..(N + 2) : ParamCase(N, cp, u)
 Transmit == pc = "cp" /\ \E ch \in Channels(<<cfg.N, cfg.cp, cfg.u>>, KeyOf(<<cfg.N, cfg.cp, cfg.u>>, 0)) : Channel(ch)
-Next == Start \/ MapStar \/ ParamStar \/ Pad \/ Map \/ Ifft \/ AddCP \/ Loop \/ Transmit
+Next == NewObject \/ Reconfigure \/ StartLive \/ Start \/ MapStar \/ ParamStar \/ Pad \/ Map \/ Ifft \/ AddCP \/ Loop \/ Transmit
         \/ Crop \/ RemoveCP \/ Fft \/ Unmap \/ Equalize
 
 (* ============================================= the laws ========================================= *)
@@ -302,7 +364,12 @@ CG(g) == CyFromG(MM, g)
 
 \* the index map (star cases for all fft sizes, and the map of every pipeline configuration)
 IndexMap == /\ pc = "mapcase" => MapLaws(N0, U, UsedIdxAsIs(N0, U))
-            /\ pc = "map"     => MapLaws(N0, U, UsedIdxAsIs(N0, U))
+            /\ pc = "map"     => MapLaws(N0, U, UsedIdxLive(N0, U)) /\ UsedIdxLive(N0, U) = UsedIdx(N0, U)
+
+\* the live object holds exactly the parameters its history demands: the last ACCEPTED call
+ObjectCoherent == hist # <<>> => /\ obj = want
+                                 /\ Valid(want.N, want.cp, want.u)
+                                 /\ pc # "idle" => <<cfg.N, cfg.cp, cfg.u>> = <<want.N, want.cp, want.u>>
 
 \* every valid configuration has a well-formed index map and a positive power scale
 ParamLaw == pc = "param" /\ Valid(N0, CP, U) => /\ MapLaws(N0, U, UsedIdx(N0, U))
@@ -399,9 +466,11 @@ StepOut ==
                                        THEN LET H == FreqRespTrunc(chan.taps, N0)
                                             IN  [j \in 1..Len(dem) |-> [num |-> dem[j], den |-> EqDen(H, j)]]
                                        ELSE <<>>]
+      [] pc = "idle"    -> [call |-> hist[Len(hist)], accepted |-> Len(hist) = 1 \/ Valid(hist[Len(hist)][1], hist[Len(hist)][2], hist[Len(hist)][3]),
+                            want |-> <<want.N, want.cp, want.u>>]
       [] OTHER          -> [none |-> 0]
-Emit == pc # "idle" =>
-        EmitEdge([step |-> pc, id |-> <<cfg.N, cfg.cp, cfg.u, cfg.L, cfg.pat>>, ch |-> chan,
+Emit == (pc # "idle" \/ hist # <<>>) =>
+        EmitEdge([step |-> IF pc = "idle" THEN "call" ELSE pc, hist |-> hist, id |-> <<cfg.N, cfg.cp, cfg.u, cfg.L, cfg.pat>>, ch |-> chan,
                   sc |-> sc, ps |-> PowerScale(cfg.N, cfg.cp, cfg.u), exact |-> Exact(cfg.N),
                   out |-> StepOut])
 =============================================================================
